@@ -922,7 +922,7 @@ def life_programs(ctx):
 
 def life_check(ctx, lifecycle=True):
     res = lib.tlc_exhaustive("CacheLifeMC", "CacheLifeMC.cfg", timeout=3600)
-    ctx.add_model("CacheLifeMC (janitor machine: OnlyWhenConfigured, BoundedStaleness, TickAhead)", res)
+    ctx.add_model("CacheLifeMC (janitor machine: OnlyWhenConfigured, BoundedStaleness, TickAhead; action properties NoLiveRemoved, PassIsComplete, TickerForward)", res)
     ctx.cov["exhaustive"] = True
     ctx.cov["exhaustive_scope"] = "TLC exhaustive: CacheLife over 2 keys, intervals {-3,0,2,3,default 4}, TTLs {0,1,2,5}, advances {1,2,3}, clock <= 9"
     sc = ctx.scratch()
